@@ -113,6 +113,17 @@ class _Mem:
         self.total = HIGH
 
 
+class Slow(tuple):
+    """An upstream value (example, computation number) that is slow to pickle
+    and yields the GIL while it is being pickled: genuinely concurrent
+    prefetch workers then overlap inside the cache they share."""
+
+    def __reduce__(self):
+        import time
+        time.sleep(0.0004)
+        return (Slow, (tuple(self),))
+
+
 def _enc(v):
     if isinstance(v, tuple) and len(v) == 2 and all(isinstance(x, int) for x in v):
         return {'i': int(v[0]), 'k': int(v[1])}
@@ -129,9 +140,14 @@ def execute(par, hist, timeout=20.0):
     rand = par['ups'] == 'rand'
     calls = [0] * n
 
+    # histories with a pool prefetch run with slow-to-pickle values (real
+    # threads, OS-scheduled: sampling on top of the sequentialised model)
+    slow = any(s['op'] == 'pf' and s['w'] >= 2 for s in hist)
+
     def fn(x):
         calls[x] += 1
-        return (x, calls[x] if rand else 0)
+        v = (x, calls[x] if rand else 0)
+        return Slow(v) if slow else v
 
     mem = {'available': HIGH}
     orig_vm = psutil.virtual_memory
